@@ -63,6 +63,7 @@ def run_job(job):
         sys.setprofile(_profiler)
         try:
             if direct:
+                opts.pop("seed", None)
                 res = fn(**job.params, **opts)
             else:
                 res = sx.explore(fn, job.params, **opts)
